@@ -35,6 +35,20 @@ static void on_alarm(int sig)
 	if (write(1, msg, sizeof(msg) - 1) < 0) { }
 	_exit(99);
 }
+/* allocation failure injection (linked with -Wl,--wrap=malloc): while armed, the `fail_at`-th malloc of the
+ * library call returns NULL once; the calls are counted either way */
+extern void *__real_malloc(size_t);
+static long fail_at, malloc_count;
+static int armed;
+void *__wrap_malloc(size_t n)
+{
+	if (armed) {
+		++malloc_count;
+		if (fail_at && malloc_count == fail_at) { errno = ENOMEM; return 0; }
+	}
+	return __real_malloc(n);
+}
+static long pending_fail;   /* set by `n fail <k>`, consumed by the next clone op */
 static int abandoned;   /* a script ended with a broken structure: its nodes were given up, not freed */
 static int dead_script; /* the current script has shown a broken structure: no further library calls */
 
@@ -255,7 +269,9 @@ static int set_value(MPT_STRUCT(node) *n, const char *val)
 int main(void)
 {
 	static char line[1 << 16];
+	static char obuf[1 << 16];
 	drv_init();
+	setvbuf(stdout, obuf, _IOLBF, sizeof(obuf));   /* no allocation by stdio later on (it would count as a leak) */
 	signal(SIGALRM, on_alarm);
 	while (fgets(line, sizeof(line), stdin)) {
 		alarm(0);
@@ -266,13 +282,16 @@ int main(void)
 			/* script boundary: drop leftovers of the previous script first (a fault here belongs to it) */
 			if (!strncmp(line, "# ---- ", 7)) {
 				cleanup();
-				ntab = 0; broken[0] = 0; sticky = 0; have_base = 0;
+				ntab = 0; broken[0] = 0; sticky = 0; have_base = 0; pending_fail = 0;
 			}
 			fputs(line, stdout);
 			continue;
 		}
 		if (!have_base) { base_bytes = __sanitizer_get_current_allocated_bytes(); have_base = 1; }
 		drv_split(line);
+		/* a pending `n fail k` only concerns the op that follows it */
+		long pf = pending_fail;
+		pending_fail = 0;
 		if (dead_script && !(drv_nw == 2 && !strcmp(drv_w[0], "n") && !strcmp(drv_w[1], "begin"))) {
 			puts("R skipped | C BROKEN:earlier | I ret=-");
 			continue;
@@ -282,7 +301,7 @@ int main(void)
 		op = drv_w[1];
 		if (!strcmp(op, "new") && drv_nw == 4) {
 			size_t nl = strlen(drv_w[2]);
-			if (nl > 200 || strlen(drv_w[3]) > 200) { puts("bad-op"); continue; }
+			if (nl > 600 || strlen(drv_w[3]) > 200) { puts("bad-op"); continue; }
 			if (!(a = mpt_node_new(nl + 1))) { result("refused", "null"); continue; }
 			if (set_name(a, drv_w[2]) < 0 || set_value(a, drv_w[3]) < 0) {
 				mpt_node_destroy(a);
@@ -330,11 +349,24 @@ int main(void)
 		else if (!strcmp(op, "clone") && (drv_nw == 3 || (drv_nw == 4 && (!strcmp(drv_w[3], "tree") || !strcmp(drv_w[3], "list"))))) {
 			int list = drv_nw == 4 && drv_w[3][0] == 'l';
 			if (get_tok(drv_w[2], &a) < 0) { puts("bad-op"); continue; }
+			fail_at = pf; malloc_count = 0; armed = 1;
 			c = drv_nw == 3 ? mpt_node_clone(a) : list ? mpt_list_clone(a) : mpt_tree_clone(a);
-			if (!c) { result("refused", "null"); continue; }
-			pos = ntab;
-			reg_clone(c, list, 0);
-			result_n("ok", pos);
+			armed = 0;
+			{
+				char ret[64];
+				if (!c) { snprintf(ret, sizeof(ret), "null mallocs=%ld", malloc_count); result("refused", ret); continue; }
+				pos = ntab;
+				reg_clone(c, list, 0);
+				snprintf(ret, sizeof(ret), "%d mallocs=%ld", pos, malloc_count);
+				result("ok", ret);
+			}
+		}
+		else if (!strcmp(op, "fail") && drv_nw == 3) {
+			/* the k-th malloc of the next clone op fails */
+			size_t k;
+			if (drv_parse_nat(drv_w[2], &k) || !k || k > 100000) { puts("bad-op"); continue; }
+			pending_fail = (long) k;
+			result("ok", "-");
 		}
 		else if (!strcmp(op, "clear") && drv_nw == 3) {
 			if (get_tok(drv_w[2], &a) < 0) { puts("bad-op"); continue; }
@@ -382,7 +414,7 @@ int main(void)
 			if (r) { snprintf(buf, sizeof(buf), "kept=%d", -1 - r); result("not-released", buf); }
 			else if (now != base_bytes) { snprintf(buf, sizeof(buf), "bytes=%ld", (long) now - (long) base_bytes); result("leak", buf); }
 			else result("ok", "0");
-			ntab = 0; broken[0] = 0; sticky = 0; have_base = 0;
+			ntab = 0; broken[0] = 0; sticky = 0; have_base = 0; pending_fail = 0;
 		}
 		else puts("bad-op");
 	}
